@@ -150,7 +150,7 @@ def judge(chk, case, sched, code, err, out, tag):
 def main(chk):
     chk.prove()
     rng = chk.rng
-    n = 90 if chk.tier == 'quick' else 2500
+    n = 200 if chk.tier == 'quick' else 2500
     pending = []
     for it in range(n):
         case = build_case(chk, rng, chk.tier)
@@ -170,7 +170,7 @@ def main(chk):
         judge(chk, case, sched, code, err, out, tag)
     return chk.finish(rule='random domains (2-6 attributes in arbitrary order, sizes 1-4), 1-6 input cliques (cyclic, disconnected, nested, duplicated, any attribute order), '
                       'elimination order in {None, random permutation, int k}, totals {1,10,0.3,1234.5}, potentials on the maximal cliques from four streams '
-                      '(small rationals / 40% zeros=-inf / 2^+-3000 magnitudes / unit) with permuted internal attribute order; message_order replaced by a random linear extension '
+                      '(small rationals / 40% zeros=-inf / 2^+-1200 magnitudes / unit) with permuted internal attribute order; message_order replaced by a random linear extension '
                       'of the dependency order (and the code\'s own schedule every third case). Compared: every clique marginal entry and logZ (1e-9 rel + 1e-12*total), plus the '
                       'verified junction-tree/schedule conditions jt_okb evaluated on the code\'s tree. Non-trivial = (>=3 tree nodes or a 3-attribute clique) and (non-sorted attribute order or zeros/huge stream).',
                       assumptions=['float64 log-space arithmetic of the code vs exact non-negative rationals of the model: compared at 1e-9 relative',
